@@ -121,9 +121,10 @@ def param_only_flows_to(ctx, R, key, param, allowed_callees, site, why_ok, why_b
     F = ctx.facts
     b = F.body(key)
     fl = Flow(b)
-    pl = [l["i"] for l in b.locals if l.get("name") == param and l["i"] <= b.mir["argc"]]
+    # the verdict parameter is the one of type Option<Value> / Option<&Value>
+    pl = [l["i"] for l in b.params() if l["ty"] in ("core::option::Option<quiver_core::value::Value>", "core::option::Option<&quiver_core::value::Value>")]
     if not pl:
-        raise CheckError("%s: parameter %s not found in %s" % (R, param, key))
+        raise CheckError("%s: verdict parameter (Option<Value>) not found in %s" % (R, key))
     fw = fl.forward({pl[0]}, through_calls=("Option::ok_or", "Try::branch", "Option::as_ref", "Option::is_none", "Option::is_some"))
     bad = []
     for bi, t in b.calls():
@@ -161,7 +162,7 @@ def r2_verdict_only(ctx):
     # the Ok(Some(x)) on the accept path is the held message
     oks = [(bi, si, s) for bi, si, s in h.stmts() if s["k"] == "assign" and s["rv"]["k"] == "agg" and s["rv"].get("variant") == "Some" and s["rv"]["ops"]
            and op_place(s["rv"]["ops"][0]) and "value::Value" in h.local_ty(op_place(s["rv"]["ops"][0])["l"])]
-    msg = [l["i"] for l in h.locals if l.get("name") == "message_value"]
+    msg = [l["i"] for l in h.params() if l["ty"] == "&quiver_core::value::Value"]
     good = bool(oks) and bool(msg)
     for bi, si, s in oks:
         src = fl.backward({op_place(s["rv"]["ops"][0])["l"]}, through_calls=("Clone::clone",))
@@ -256,7 +257,7 @@ def r4_latest_answer_replaces(ctx):
                     continue
                 fln = Flow(body, through_named=True)
                 vsrc = fln.backward({op_place(t["args"][2])["l"]}, through_calls=("Clone::clone",))
-                res = [l["i"] for l in body.locals if l.get("name") == "results" and l["i"] <= body.mir["argc"]]
+                res = [l["i"] for l in body.params() if "HashMap<usize, core::option::Option<core::result::Result" in l["ty"]]
                 ctx.check(bool(res) and res[0] in vsrc, R, site, "responses.insert(worker_id, results.clone()) — overwrite semantics, value = this answer",
                           "the stored answer is not the answer just received", body.loc(bi))
     if n == 0:
@@ -273,9 +274,9 @@ def r4b_answers_not_dropped(ctx):
     F = ctx.facts
     b = F.body("quiver_environment::environment::Environment::handle_process_results")
     fl = Flow(b)
-    res = [l["i"] for l in b.locals if l.get("name") == "results" and l["i"] <= b.mir["argc"]]
+    res = [l["i"] for l in b.params() if "HashMap<usize, core::option::Option<core::result::Result" in l["ty"]]
     if not res:
-        raise CheckError("R-C05-4b: parameter `results` not found")
+        raise CheckError("R-C05-4b: the results-map parameter was not found")
     fw = fl.forward({res[0]}, through_calls=("Clone::clone", "IntoIterator::into_iter", "Iterator::next", "Iterator::map", "Iterator::collect", "HashMap::iter", "HashMap::into_iter"))
     consume = []
     for bi, t in b.calls():
@@ -289,7 +290,15 @@ def r4b_answers_not_dropped(ctx):
         if any((op_place(o) or {}).get("l") in fw for o in s["rv"]["ops"]):
             consume.append(bi)
     # exempt: sender worker unknown (None edge of the lookup chain that starts from results.keys().next())
-    sender = [l["i"] for l in b.locals if l.get("name") == "sender_worker_id"]
+    # the sending worker: an Option<usize> obtained from the routing table for a key of the results map
+    fln_ = Flow(b, through_named=True)
+    sender = []
+    for l in b.locals:
+        if l["ty"] == "core::option::Option<usize>" and l["i"] > b.mir["argc"]:
+            back = fln_.backward({l["i"]}, through_calls=("Option::copied", "Option::and_then", "Iterator::next", "HashMap::keys", "HashMap::get"))
+            callees = fln_.slice_reads(l["i"], through_calls=("Option::copied", "Option::and_then", "Iterator::next"))[3]
+            if res[0] in back or any(c.endswith("HashMap::keys") for c in callees):
+                sender.append(l["i"])
     exempt = option_none_edges(b, set(sender) | fl.forward(set(sender)))
     bad = explore(b, [0], avoid=consume, stop=err_blocks(b) | diverging_blocks(b), exempt_edges=exempt, want="return")
     ctx.check(bool(consume) and bad is None, R, b.key + "|answer-kept", "every received answer is recorded for the pending await or forwarded to the awaiter's worker",
